@@ -554,4 +554,268 @@ theorem mant_sim (u : Nat) (hu : u < BIGNUM_DIGITS) (f : Nat) (A : Arr) (e : Int
       have hsim := mant_sim_tight u hu (f + 1) A' (e - 1) (num * 2 ^ 1) den m g' ht' hden hrel' hm
       rw [hsim]
 
+
+/-! ### the scaling loops -/
+
+theorem shrLoop_spec (rs : Int) : ∀ (fuel : Nat) (A : Arr) (e : Int) (r : Arr × Int), Good A → e ≤ rs →
+    rs - e ≤ 28 * (fuel : Int) → shrLoop fuel A e rs = some r →
+    r.2 = rs ∧ Good r.1 ∧ natOfLimbs r.1.digits * 2 ^ (rs - e).toNat = natOfLimbs A.digits := by
+  intro fuel
+  induction fuel with
+  | zero =>
+    intro A e r g h1 h2 h
+    simp only [shrLoop, Option.some.injEq] at h
+    rw [← h]
+    have : (rs - e).toNat = 0 := by omega
+    rw [this]
+    exact ⟨by simp only; omega, g, by simp⟩
+  | succ f ih =>
+    intro A e r g h1 h2 h
+    rw [shrLoop] at h
+    by_cases hc : e < rs
+    · rw [if_pos hc] at h
+      cases hp : shrPass 0 (min BDIG_PER_DIG (rs - e).toNat) A with
+      | none => rw [hp] at h; cases h
+      | some A' =>
+        rw [hp] at h
+        simp only at h
+        obtain ⟨g', hv⟩ := shrPass_good _ A A' hp g
+        have hsh : ((min BDIG_PER_DIG (rs - e).toNat : Nat) : Int) ≤ rs - e := by
+          have : min BDIG_PER_DIG (rs - e).toNat ≤ (rs - e).toNat := Nat.min_le_right _ _
+          omega
+        have hsh2 : min BDIG_PER_DIG (rs - e).toNat = 28 ∨ ((min BDIG_PER_DIG (rs - e).toNat : Nat) : Int) = rs - e := by
+          unfold BDIG_PER_DIG
+          rcases Nat.le_total 28 (rs - e).toNat with h | h
+          · left; exact Nat.min_eq_left h
+          · right; rw [Nat.min_eq_right h]; omega
+        generalize min BDIG_PER_DIG (rs - e).toNat = sh at *
+        obtain ⟨a1, a2, a3⟩ := ih A' (e + (sh : Int)) r g' (by omega) (by rcases hsh2 with h | h <;> omega) h
+        refine ⟨a1, a2, ?_⟩
+        have : (rs - e).toNat = (rs - (e + (sh : Int))).toNat + sh := by omega
+        rw [this, Nat.pow_add, ← Nat.mul_assoc, a3]
+        exact hv
+    · rw [if_neg hc] at h
+      simp only [Option.some.injEq] at h
+      rw [← h]
+      have : (rs - e).toNat = 0 := by omega
+      rw [this]
+      exact ⟨by simp only; omega, g, by simp⟩
+
+/-- from a tight state the left-shift loops of the two levels run in lock step -/
+theorem shl_sim_tight (u : Nat) (hu : u < BIGNUM_DIGITS) (den : Nat) (hden : 0 < den) (rs : Int) :
+    ∀ (fuel : Nat) (A : Arr) (e : Int) (num : Nat) (r : Arr × Int), Good A → Tight A → Rel A u num den →
+    shlLoopL fuel A u e rs = some r →
+    Good r.1 ∧ Tight r.1 ∧ Rel r.1 u (shlLoop fuel num den e rs).1 den ∧ r.2 = (shlLoop fuel num den e rs).2 := by
+  intro fuel
+  induction fuel with
+  | zero =>
+    intro A e num r g ht hrel h
+    simp only [shlLoopL, Option.some.injEq] at h
+    rw [← h]
+    exact ⟨g, ht, hrel, rfl⟩
+  | succ f ih =>
+    intro A e num r g ht hrel h
+    have hlen : u < A.digits.length := by rw [g.len]; exact hu
+    have hfr := frac_agree A u num den hden hrel
+    have hiff : u < A.lsd ↔ num % den ≠ 0 := by
+      constructor
+      · intro h1 h0
+        exact tight_frac A u g.wf hlen ht (by rw [g.len]; exact g.lsd) h1 (hfr.mpr h0)
+      · intro hne
+        exact frac_limbs A u g.wf hlen (fun h0 => hne (hfr.mp h0))
+    rw [shlLoopL] at h
+    rw [shlLoop]
+    by_cases hc : rs < e ∧ num % den ≠ 0
+    · have hcL : rs < e ∧ u < A.lsd := ⟨hc.1, hiff.mpr hc.2⟩
+      rw [if_pos hcL] at h
+      rw [if_pos hc]
+      cases hp : shlPass (min BDIG_PER_DIG (e - rs).toNat) A with
+      | none => rw [hp] at h; cases h
+      | some A' =>
+        rw [hp] at h
+        simp only at h
+        obtain ⟨g', hv, ht'⟩ := shlPass_good _ A A' hp g
+        have hrel' := rel_double A A' u num den g g' hrel _ hv
+        exact ih A' _ (num * pow2 (min BDIG_PER_DIG (e - rs).toNat)) r g' ht' hrel' h
+    · have hcL : ¬ (rs < e ∧ u < A.lsd) := fun hh => hc ⟨hh.1, hiff.mp hh.2⟩
+      rw [if_neg hcL] at h
+      rw [if_neg hc]
+      simp only [Option.some.injEq] at h
+      rw [← h]
+      exact ⟨g, ht, hrel, rfl⟩
+
+
+/-! ### the whole run after the digits have been read -/
+
+/-- what the exact level computes from the same fraction and the same shift estimate -/
+def coreB (num0 den0 : Nat) (rs : Int) : Dbl :=
+  finish (mantLoop 64 (scaleStep num0 den0 rs).1 (scaleStep num0 den0 rs).2.1 (scaleStep num0 den0 rs).2.2).1
+    (scaleStep num0 den0 rs).2.1
+    (mantLoop 64 (scaleStep num0 den0 rs).1 (scaleStep num0 den0 rs).2.1 (scaleStep num0 den0 rs).2.2).2
+
+theorem mantLoop_exit (fuel num den : Nat) (e : Int) (h0 : num % den = 0) : mantLoop (fuel + 1) num den e = (num, e) := by
+  rw [mantLoop, if_pos (Or.inr h0)]
+
+theorem limbRun_refines (A0 : Arr) (u : Nat) (rs : Int) (num0 den0 : Nat) (d : Dbl)
+    (g : Good A0) (hu : u < BIGNUM_DIGITS) (hden : 0 < den0) (hrel : Rel A0 u num0 den0)
+    (hrs1 : -1792 ≤ rs) (hrs2 : rs ≤ 1792) (Hhi : num0 * Q rs < den0 * P rs * 2 ^ 53)
+    (h : limbRun A0 u rs = some d) : d = coreB num0 den0 rs := by
+  unfold limbRun scaleL at h
+  unfold coreB scaleStep
+  by_cases hpos : 0 < rs
+  · -- right shifts
+    rw [if_pos hpos] at h
+    rw [if_pos hpos]
+    cases hs : shrLoop 64 A0 0 rs with
+    | none => rw [hs] at h; cases h
+    | some r =>
+      rw [hs] at h
+      simp only at h
+      obtain ⟨a1, g1, a3⟩ := shrLoop_spec rs 64 A0 0 r g (by omega) (by omega) hs
+      cases hm : mantLoopL 64 r.1 u r.2 with
+      | none => rw [hm] at h; cases h
+      | some m =>
+        rw [hm] at h
+        simp only [Option.some.injEq] at h
+        rw [← h]
+        have hrel1 : Rel r.1 u num0 (den0 * pow2 rs.toNat) := by
+          unfold Rel Wt at *
+          rw [g1.len]
+          rw [g.len] at hrel
+          have e0 : (rs - 0).toNat = rs.toNat := by simp
+          rw [e0] at a3
+          unfold pow2
+          calc natOfLimbs r.1.digits * (den0 * 2 ^ rs.toNat) = (natOfLimbs r.1.digits * 2 ^ rs.toNat) * den0 := by grind
+            _ = natOfLimbs A0.digits * den0 := by rw [a3]
+            _ = num0 * Bb ^ (BIGNUM_DIGITS - (u + 1)) := hrel
+        rw [a1] at hm
+        exact mant_sim u hu 62 r.1 rs num0 (den0 * pow2 rs.toNat) m g1 (by omega)
+          (Nat.mul_pos hden (Nat.two_pow_pos _)) hrel1 hm
+  · rw [if_neg hpos] at h
+    rw [if_neg hpos]
+    by_cases hneg : rs < 0
+    · -- left shifts
+      rw [if_pos hneg] at h
+      rw [if_pos hneg]
+      simp only
+      cases hs : shlLoopL 64 A0 u 0 rs with
+      | none => rw [hs] at h; cases h
+      | some r =>
+        rw [hs] at h
+        simp only at h
+        cases hm : mantLoopL 64 r.1 u r.2 with
+        | none => rw [hm] at h; cases h
+        | some m =>
+          rw [hm] at h
+          simp only [Option.some.injEq] at h
+          rw [← h]
+          have hlen : u < A0.digits.length := by rw [g.len]; exact hu
+          have hfr := frac_agree A0 u num0 den0 hden hrel
+          by_cases hfb : num0 % den0 ≠ 0
+          · -- a fractional part: both levels shift; afterwards `lsd` is tight
+            have hfl : u < A0.lsd := frac_limbs A0 u g.wf hlen (fun h0 => hfb (hfr.mp h0))
+            rw [show (64 : Nat) = 63 + 1 from rfl, shlLoopL, if_pos ⟨hneg, hfl⟩] at hs
+            cases hp : shlPass (min BDIG_PER_DIG (0 - rs).toNat) A0 with
+            | none => rw [hp] at hs; cases hs
+            | some A' =>
+              rw [hp] at hs
+              simp only at hs
+              obtain ⟨g', hv, ht'⟩ := shlPass_good _ A0 A' hp g
+              have hrel' := rel_double A0 A' u num0 den0 g g' hrel _ hv
+              obtain ⟨b1, b2, b3, b4⟩ := shl_sim_tight u hu den0 hden rs 63 A' _ _ r g' ht' hrel' hs
+              have hB : shlLoop 64 num0 den0 0 rs = shlLoop 63 (num0 * pow2 (min BDIG_PER_DIG (0 - rs).toNat)) den0
+                  (0 - ((min BDIG_PER_DIG (0 - rs).toNat : Nat) : Int)) rs := by
+                rw [show (64 : Nat) = 63 + 1 from rfl, shlLoop, if_pos ⟨hneg, hfb⟩]
+              rw [hB]
+              rw [b4] at hm
+              exact mant_sim_tight u hu 64 r.1 _ _ den0 m b1 b2 hden b3 hm
+          · have h0 : num0 % den0 = 0 := by
+              rcases Nat.eq_zero_or_pos (num0 % den0) with hh | hh
+              · exact hh
+              · exact absurd (Nat.ne_of_gt hh) hfb
+            have hB : shlLoop 64 num0 den0 0 rs = (num0, 0) := by
+              rw [show (64 : Nat) = 63 + 1 from rfl, shlLoop]
+              have : ¬ (rs < 0 ∧ num0 % den0 ≠ 0) := fun hh => hh.2 h0
+              rw [if_neg this]
+            rw [hB]
+            simp only
+            by_cases hfl : u < A0.lsd
+            · -- `lsd` on a zero limb: the limb level shifts an integer once
+              rw [show (64 : Nat) = 63 + 1 from rfl, shlLoopL, if_pos ⟨hneg, hfl⟩] at hs
+              cases hp : shlPass (min BDIG_PER_DIG (0 - rs).toNat) A0 with
+              | none => rw [hp] at hs; cases hs
+              | some A' =>
+                rw [hp] at hs
+                simp only at hs
+                obtain ⟨g', hv, ht'⟩ := shlPass_good _ A0 A' hp g
+                have hrel' := rel_double A0 A' u num0 den0 g g' hrel _ hv
+                have hshle : min BDIG_PER_DIG (0 - rs).toNat ≤ 28 := Nat.min_le_left _ _
+                have hshle2 : min BDIG_PER_DIG (0 - rs).toNat ≤ (-rs).toNat := by
+                  have : (0 - rs).toNat = (-rs).toNat := by congr 1; omega
+                  rw [← this]; exact Nat.min_le_right _ _
+                generalize hshd : min BDIG_PER_DIG (0 - rs).toNat = sh at *
+                obtain ⟨b1, b2, b3, b4⟩ := shl_sim_tight u hu den0 hden rs 63 A' _ _ r g' ht' hrel' hs
+                have hnum : num0 = den0 * (num0 / den0) := by
+                  have := Nat.div_add_mod num0 den0
+                  rw [h0, Nat.add_zero] at this
+                  exact this.symm
+                have h0' : num0 * 2 ^ sh % den0 = 0 := by
+                  rw [hnum, Nat.mul_assoc]; exact Nat.mul_mod_right _ _
+                have hdiv' : num0 * 2 ^ sh / den0 = num0 / den0 * 2 ^ sh := by
+                  conv => lhs; rw [hnum]
+                  rw [Nat.mul_assoc, Nat.mul_div_cancel_left _ hden]
+                have hBs : shlLoop 63 (num0 * 2 ^ sh) den0 (0 - (sh : Int)) rs = (num0 * 2 ^ sh, 0 - (sh : Int)) := by
+                  rw [show (63 : Nat) = 62 + 1 from rfl, shlLoop]
+                  have : ¬ (rs < 0 - (sh : Int) ∧ num0 * 2 ^ sh % den0 ≠ 0) := fun hh => hh.2 h0'
+                  rw [if_neg this]
+                rw [hBs] at b3 b4
+                simp only at b3 b4
+                rw [b4] at hm
+                have hsim := mant_sim_tight u hu 64 r.1 _ _ den0 m b1 b2 hden b3 hm
+                rw [hsim, show (64 : Nat) = 63 + 1 from rfl, mantLoop_exit _ _ _ _ h0', mantLoop_exit _ _ _ _ h0]
+                -- M·2^sh < 2^53
+                have hMlt : num0 / den0 * 2 ^ (-rs).toNat < 2 ^ 53 := by
+                  rw [Q_nonpos_P rs (by omega)] at Hhi
+                  have hq : Q rs = 2 ^ (-rs).toNat := rfl
+                  rw [hq, Nat.mul_one] at Hhi
+                  apply Nat.lt_of_mul_lt_mul_left (a := den0)
+                  calc den0 * (num0 / den0 * 2 ^ (-rs).toNat) = (den0 * (num0 / den0)) * 2 ^ (-rs).toNat := by grind
+                    _ = num0 * 2 ^ (-rs).toNat := by rw [← hnum]
+                    _ < den0 * 2 ^ 53 := Hhi
+                have hMsh : num0 / den0 * 2 ^ sh < 2 ^ 53 := by
+                  have : 2 ^ sh ≤ 2 ^ (-rs).toNat := Nat.pow_le_pow_right (by decide) hshle2
+                  have := Nat.mul_le_mul_left (num0 / den0) this
+                  omega
+                have hMne : num0 / den0 ≠ 0 := by
+                  intro hz
+                  have hnp := num_pos_of_rel A0 u num0 den0 g hden hrel
+                  rw [hz, Nat.mul_zero] at hnum
+                  omega
+                rw [finish_exact_val _ den0 _ hden h0' (by rw [hdiv']; exact hMsh),
+                  finish_exact_val num0 den0 0 hden h0 (by
+                    have : num0 / den0 * 1 ≤ num0 / den0 * 2 ^ sh := Nat.mul_le_mul_left _ (Nat.two_pow_pos sh)
+                    omega), hdiv']
+                have hbl : bitLen (num0 / den0) + sh ≤ 53 := by
+                  rw [← bitLen_mul_pow _ _ hMne]
+                  exact bitLen_le_of_lt _ 53 (Nat.mul_ne_zero hMne (Nat.ne_of_gt (Nat.two_pow_pos sh))) hMsh
+                exact ldexp_dbl false (num0 / den0) sh 0 hMne hbl (by omega)
+            · -- no shift at either level
+              rw [show (64 : Nat) = 63 + 1 from rfl, shlLoopL] at hs
+              have : ¬ (rs < 0 ∧ u < A0.lsd) := fun hh => hfl hh.2
+              rw [if_neg this] at hs
+              simp only [Option.some.injEq] at hs
+              rw [← hs] at hm
+              exact mant_sim u hu 62 A0 0 num0 den0 m g (by omega) hden hrel hm
+    · -- no scaling
+      rw [if_neg hneg] at h
+      rw [if_neg hneg]
+      simp only at h ⊢
+      cases hm : mantLoopL 64 A0 u 0 with
+      | none => rw [hm] at h; cases h
+      | some m =>
+        rw [hm] at h
+        simp only [Option.some.injEq] at h
+        rw [← h]
+        exact mant_sim u hu 62 A0 0 num0 den0 m g (by omega) hden hrel hm
+
 end CifModel.Lemmas.NumbLimbRefine
